@@ -204,8 +204,8 @@ func c12Primitives(p *Program, r *Report) {
 			r.Unresolved("Write" + k.name + "/Read" + k.name)
 			continue
 		}
-		wWidth, wOrder := widthAndOrder(w, "ensureCapacity")
-		rWidth, rOrder := widthAndOrder(rd, "check")
+		wWidth, wOrder := widthAndOrder(w, c.Reserve)
+		rWidth, rOrder := widthAndOrder(rd, c.Check)
 		adv := posAdvance(rd)
 		r.Check(wWidth == k.width && rWidth == k.width && adv == k.width && wOrder == "Put"+k.name && rOrder == k.name, "width/order of "+k.name, w.Pos(),
 			fmt.Sprintf("writer reserves %d bytes and encodes with order.%s; reader checks %d bytes, decodes with order.%s and advances by %d", wWidth, wOrder, rWidth, rOrder, adv))
@@ -235,7 +235,7 @@ func c12Primitives(p *Program, r *Report) {
 	}
 }
 
-func widthAndOrder(fn *ssa.Function, checkName string) (int64, string) {
+func widthAndOrder(fn *ssa.Function, checkFn *ssa.Function) (int64, string) {
 	var width int64 = -1
 	order := ""
 	for _, b := range fn.Blocks {
@@ -244,7 +244,7 @@ func widthAndOrder(fn *ssa.Function, checkName string) (int64, string) {
 			if c == nil {
 				continue
 			}
-			if cal := c.StaticCallee(); cal != nil && cal.Name() == checkName {
+			if cal := c.StaticCallee(); cal != nil && checkFn != nil && cal == checkFn {
 				for _, a := range c.Args[1:] {
 					if n, ok := constInt(a); ok {
 						width = n
@@ -268,7 +268,7 @@ func posAdvance(fn *ssa.Function) int64 {
 				continue
 			}
 			f, _ := fieldAddr(st.Addr)
-			if f == nil || f.Name() != "pos" {
+			if f == nil || theProgram == nil || f != theProgram.codec().RPos {
 				continue
 			}
 			if bo, ok := st.Val.(*ssa.BinOp); ok && bo.Op == token.ADD {
@@ -1062,7 +1062,7 @@ func c12Pools(p *Program, r *Report) {
 			// a method whose parameters all are plain data setters (Reset(data), SetOrder) is not a read/write method: require
 			// that the method's name starts with Read/Write/read/write or is the bounds check / capacity helper
 			nm := strings.ToLower(root.Name())
-			if strings.HasPrefix(nm, "read") || strings.HasPrefix(nm, "write") || nm == "check" || nm == "skip" || nm == "seek" || nm == "ensurecapacity" {
+			if strings.HasPrefix(nm, "read") || strings.HasPrefix(nm, "write") || root == c.Check || root == c.Reserve || root == c.ReadReflect || root == c.WriteReflect || nm == "skip" || nm == "seek" {
 				state[a.Field] = true
 			}
 		}
